@@ -215,10 +215,11 @@ PROPERTY_UNITS['C14'] = ['msgl3', 'frame']
 PROPERTY_UNITS['C12'] = ['msgl3', 'l0bits']
 PROPERTY_UNITS['C09'] = ['msgl3', 'l2', 'l1int', 'l1enc', 'bs_msgs', 'l0bits']
 PROPERTY_UNITS['C16'] = ['l2', 'bs_bias', 'bs_msgs', 'l0bits']
+PROPERTY_UNITS['C01'] = ['msgl3', 'frame', 'l2', 'dfvc', 'l1int', 'text', 'bs_msgs', 'bs_msmrows', 'bs_bias', 'l0bits']
 PROPERTY_UNITS['C19'] = ['features', 'msgl3']
 PROPERTY_UNITS['C17'] = ['text', 'bs_text', 'l2', 'l0bits']
 PROPERTY_UNITS['C10'] = ['l2', 'sigtab', 'bs_msmrows', 'bs_msgs', 'l0bits']
 PROPERTY_UNITS['C02'] = ['frame', 'msgl3', 'l2', 'l1int', 'l1enc', 'bs_msgs', 'l0bits']
 
-PROPERTY_LEVEL = {'C07': 'other', 'C19': 'other'}
-PROPERTY_EXPLANATION = {'C19': 'Configuration sweep: for the empty selection and each single message feature the crate is type-checked without std, the expanded dispatch is checked to name only its own number, and the expanded decoder text is compared with the all_msgs expansion that the deductive units verify; plus the Verus obligations of unit msgl3 on the feature set.', 'C07': 'Kani/CBMC harnesses complete over values x widths x bit offsets x buffer contents for every carrier type; buffer length symbolic up to the window listed in bounded_stand_ins (bounded in that one dimension).'}
+PROPERTY_LEVEL = {'C07': 'other', 'C19': 'other', 'C16': 'other'}
+PROPERTY_EXPLANATION = {'C16': 'Deductive part (Verus): the three bias-list decoders never exceed their capacity and never panic. The encoders (iterator filter/count closures) are outside the verifier: bounded native search only, labelled bounded.', 'C19': 'Configuration sweep: for the empty selection and each single message feature the crate is type-checked without std, the expanded dispatch is checked to name only its own number, and the expanded decoder text is compared with the all_msgs expansion that the deductive units verify; plus the Verus obligations of unit msgl3 on the feature set.', 'C07': 'Kani/CBMC harnesses complete over values x widths x bit offsets x buffer contents for every carrier type; buffer length symbolic up to the window listed in bounded_stand_ins (bounded in that one dimension).'}
